@@ -24,7 +24,9 @@ Record wcfg := mkWC {
   wc_pool : list N;                  (* the peers whose distance ranks a lookup is given *)
   wc_K : nat;                        (* bucket size *)
   wc_scfg : V.C17.Model.cfg;
-  wc_ttl : N                         (* record ttl (logical) *)
+  wc_ttl : N;                        (* record ttl (logical) *)
+  wc_auto : bool;                    (* RoutingTableUpdateMode::Automatic (false = Manual) *)
+  wc_vauto : bool                    (* IncomingRecordValidationMode::Automatic (false = Manual) *)
 }.
 
 Definition pkey (wc : wcfg) (p : N) : key :=
@@ -38,26 +40,25 @@ Fixpoint peer_of (keys : list (N * key)) (k : key) : N :=
   | (p, k') :: t => if V.C14.Model.key_eqb k' k then p else peer_of t k
   end.
 
-Record world := mkW { w_st : st; w_rt : table; w_store : V.C17.Model.store }.
+(* w_prov: MemoryStore::local_providers (key -> quorum of the start_providing call);
+   w_timers: MemoryStore::pending_provider_refresh, the keys whose refresh timer is armed (a multiset:
+   every put_local_provider arms one more) *)
+Record world := mkW {
+  w_st : st; w_rt : table; w_store : V.C17.Model.store;
+  w_prov : list (N * quorum); w_timers : list N
+}.
+
+Fixpoint rem1 (x : N) (l : list N) : list N :=
+  match l with [] => [] | h :: t => if h =? x then t else h :: rem1 x t end.
 
 (* ---- the routing table as kademlia/mod.rs uses it ---- *)
 Definition rt_op (wc : wcfg) (t : table) (o : V.C14.Model.op) : table :=
   fst (V.C14.Model.step (lkey wc) (wc_K wc) t o).
 
-(* disconnect_peer: `if let Occupied(entry) = routing_table.entry(key) { entry.connection = NotConnected }` *)
+(* disconnect_peer: `if let Occupied(entry) = routing_table.entry(key) { entry.connection = NotConnected }`:
+   the ODisconnected operation of the C14 model *)
 Definition rt_disconnect (wc : wcfg) (t : table) (p : N) : table :=
-  let k := pkey wc p in
-  match V.C14.Model.ilog2 (V.C14.Model.kxor (lkey wc) k) with
-  | None => t
-  | Some i =>
-      let b := nth i t [] in
-      match V.C14.Model.bucket_entry (wc_K wc) b k with
-      | V.C14.Model.SOcc x y z =>
-          V.C14.Model.upd_nth i
-            (x ++ V.C14.Model.mkNode (V.C14.Model.n_key y) (V.C14.Model.n_addr y) V.C14.Model.NotConnected :: z) t
-      | s => V.C14.Model.upd_nth i (V.C14.Model.slot_bucket b s) t
-      end
-  end.
+  rt_op wc t (V.C14.Model.ODisconnected (pkey wc p)).
 
 (* put_record_to_peers: `match routing_table.entry(key) { Occupied(e) => Some(e), _ => None }`.
    Before the repair of F-C16e a vacant entry with addresses was a target as well: that entry is the
@@ -88,7 +89,9 @@ Fixpoint rt_filter (wc : wcfg) (t : table) (ps : list N) : table * list N :=
 Definition conn_of (s : st) (p : N) : V.C14.Model.conn :=
   match aget p (peers s) with Some _ => V.C14.Model.Connected | None => V.C14.Model.NotConnected end.
 
-(* update_routing_table (Automatic mode): add_known_peer for every reported peer but ourselves *)
+(* update_routing_table: add_known_peer for every reported peer but ourselves (the caller `side`
+   applies it in the Automatic mode only; in the Manual mode the user is told of the peers by the
+   RoutingTableUpdate event and may call add_known_peer himself) *)
 Definition rt_learn (wc : wcfg) (s : st) (t : table) (ps : list N) : table :=
   fold_left (fun acc p =>
                if p =? g_local (wc_g wc) then acc
@@ -113,15 +116,38 @@ Definition INBOUND_KEY : N := 250.
 
 (* ---- user-level events ---- *)
 Inductive ucmd :=
-| UCFind | UCPut (qr : quorum) (rk : N) | UCProv (qr : quorum) | UCGet (qr : quorum) (rk : N)
-| UCGetProv | UCRefresh (qr : quorum).
+| UCFind | UCPut (qr : quorum) (rk : N) | UCProv (qr : quorum) (rk : N) | UCGet (qr : quorum) (rk : N)
+| UCGetProv.
+
+(* a request of a remote peer, read from an inbound substream *)
+Inductive inreq :=
+| IFindNode (target : key)                  (* FIND_NODE; target = the hash of the key asked for *)
+| IPutValue (rk : N)                        (* PUT_VALUE of a record with key rk *)
+| IGetValue (rk : N) (target : key)         (* GET_VALUE for key rk (target = its hash) *)
+| IGetProviders (target : key)
+| IAddProvider (valid : bool).              (* ADD_PROVIDER; valid = one provider, the sender itself *)
 
 Inductive uev :=
 | UCmd (q : N) (c : ucmd) (target : key)
 | UPutToPeers (q : N) (qr : quorum) (rk : N) (given : list N)
 | UStoreRecord (rk : N)
 | UAddKnownPeer (p : N) (addr : bool)
+| UStopProviding (rk : N)
+| UFire (q rk : N) (target : key)           (* a refresh timer of the store for key rk fires; q = the id the
+                                               loop draws from the counter if a refresh is due *)
+| UInReq (id : N) (rq : inreq)              (* the read future of inbound substream id delivers a request *)
 | UEv (e : ev).
+
+Definition msg_of_req (rq : inreq) : msg :=
+  match rq with
+  | IFindNode _ => MFindNode []
+  | IPutValue _ => MPutValue
+  | IGetValue _ _ => MGetRecord true None []
+  | IGetProviders _ => MGetProviders true [] []
+  | IAddProvider v => MAddProvider v
+  end.
+Definition req_key (rq : inreq) : N :=
+  match rq with IPutValue rk | IGetValue rk _ => rk | _ => INBOUND_KEY end.
 
 (* which peer disconnect_peer is called for, read from the state before the handler runs *)
 Definition disconnects (s : st) (e : ev) : option N :=
@@ -149,7 +175,7 @@ Definition msg_peers (m : msg) : option (list N) :=
   end.
 
 (* the table / store side of a base event *)
-Definition side (wc : wcfg) (w : world) (e : ev) : table * V.C17.Model.store :=
+Definition side_k (wc : wcfg) (w : world) (e : ev) (inkey : N) : table * V.C17.Model.store :=
   let s := w_st w in
   let t0 := match disconnects s e with Some p => rt_disconnect wc (w_rt w) p | None => w_rt w end in
   match e with
@@ -165,9 +191,16 @@ Definition side (wc : wcfg) (w : world) (e : ev) : table * V.C17.Model.store :=
           if res_ok (f_kind f) (RRead m) then
             match f_q f, trunc_msg (wc_g wc) m with
             | Some _, m' =>
-                (match msg_peers m' with Some ps => rt_learn wc s t0 ps | None => t0 end, w_store w)
+                (match msg_peers m' with
+                 | Some ps => if wc_auto wc then rt_learn wc s t0 ps else t0
+                 | None => t0
+                 end, w_store w)
             | None, MPutValue =>
-                (t0, V.C17.Model.put (wc_scfg wc) (w_store w) (local_record wc INBOUND_KEY))
+                (* an inbound PUT_VALUE is stored at once in the Automatic validation mode only; in the
+                   Manual mode the user receives IncomingRecord and decides (store_record) *)
+                (t0, if wc_vauto wc
+                     then V.C17.Model.put (wc_scfg wc) (w_store w) (local_record wc inkey)
+                     else w_store w)
             | None, _ => (t0, w_store w)
             end
           else (t0, w_store w)
@@ -175,6 +208,19 @@ Definition side (wc : wcfg) (w : world) (e : ev) : table * V.C17.Model.store :=
       end
   | _ => (t0, w_store w)
   end.
+
+Definition side (wc : wcfg) (w : world) (e : ev) : table * V.C17.Model.store := side_k wc w e INBOUND_KEY.
+
+(* the future with this id reads a request from an inbound substream *)
+Definition inbound_read (s : st) (id : N) : bool :=
+  match find_fut id (futs s) with
+  | Some f => match f_kind f, f_q f with FInRead, None => true | _, _ => false end
+  | None => false
+  end.
+
+(* MemoryStore::next_action: a timer is armed for rk, and the key is still provided *)
+Definition fire_due (w : world) (rk : N) : option quorum :=
+  if nmem rk (w_timers w) then aget rk (w_prov w) else None.
 
 (* elaboration of a user event into the Model.v event, and the new table / store *)
 Definition elab (wc : wcfg) (w : world) (u : uev) : ev * table * V.C17.Model.store :=
@@ -187,12 +233,11 @@ Definition elab (wc : wcfg) (w : world) (u : uev) : ev * table * V.C17.Model.sto
       | UCPut qr rk =>
           (ECmd q (CPutRecord qr) dists seeds, w_rt w,
            V.C17.Model.put (wc_scfg wc) (w_store w) (local_record wc rk))
-      | UCProv qr => (ECmd q (CStartProviding qr) dists seeds, w_rt w, w_store w)
+      | UCProv qr _ => (ECmd q (CStartProviding qr) dists seeds, w_rt w, w_store w)
       | UCGet qr rk =>
           let '(st', r) := V.C17.Model.get (w_store w) rk 0 in
           (ECmd q (CGetRecord qr (match r with Some _ => true | None => false end)) dists seeds, w_rt w, st')
       | UCGetProv => (ECmd q CGetProviders dists seeds, w_rt w, w_store w)
-      | UCRefresh qr => (ECmd q (CRefresh qr) dists seeds, w_rt w, w_store w)
       end
   | UPutToPeers q qr rk given =>
       let '(t', ps) := rt_filter wc (w_rt w) given in (EPutToPeers q qr ps, t', w_store w)
@@ -200,13 +245,65 @@ Definition elab (wc : wcfg) (w : world) (u : uev) : ev * table * V.C17.Model.sto
       (ENop, w_rt w, V.C17.Model.put (wc_scfg wc) (w_store w) (local_record wc rk))
   | UAddKnownPeer p addr =>
       (ENop, rt_op wc (w_rt w) (V.C14.Model.OAdd (pkey wc p) addr (conn_of (w_st w) p)), w_store w)
+  | UStopProviding _ => (ENop, w_rt w, w_store w)
+  | UFire q rk target =>
+      match fire_due w rk with
+      | Some qr => (ECmd q (CRefresh qr) (dists_of wc target) (seeds_of wc (w_rt w) target), w_rt w, w_store w)
+      | None => (ENop, w_rt w, w_store w)
+      end
+  | UInReq id rq =>
+      let e := EFut id (RRead (msg_of_req rq)) in
+      let '(t', s') := side_k wc w e (req_key rq) in
+      (e, t', match rq with
+              | IGetValue rk _ => if inbound_read (w_st w) id then fst (V.C17.Model.get s' rk 0) else s'
+              | _ => s'
+              end)
   | UEv e => let '(t', s') := side wc w e in (e, t', s')
+  end.
+
+(* local providers and refresh timers: put_local_provider (start_providing, and again at every refresh)
+   registers the key with its quorum and arms one more timer; remove_local_provider forgets the key
+   but not its timers; a timer that fires is consumed *)
+Definition prov_side (w : world) (u : uev) : list (N * quorum) * list N :=
+  match u with
+  | UCmd _ (UCProv qr rk) _ => (aset rk qr (w_prov w), w_timers w ++ [rk])
+  | UStopProviding rk => (adel rk (w_prov w), w_timers w)
+  | UFire _ rk _ =>
+      if nmem rk (w_timers w)
+      then match aget rk (w_prov w) with
+           | Some _ => (w_prov w, rem1 rk (w_timers w) ++ [rk])
+           | None => (w_prov w, rem1 rk (w_timers w))
+           end
+      else (w_prov w, w_timers w)
+  | _ => (w_prov w, w_timers w)
+  end.
+
+(* the schedule is consistent: only an armed timer fires *)
+Definition uvalid (w : world) (u : uev) : bool :=
+  match u with UFire _ rk _ => nmem rk (w_timers w) | _ => true end.
+
+(* what the node answers to a request read from an inbound substream: (record found, closer peers) —
+   RoutingTable::closest of the CURRENT table for the key asked for, the local record if there is one *)
+Definition reply_of (wc : wcfg) (w : world) (u : uev) : option (bool * list N) :=
+  match u with
+  | UInReq id rq =>
+      if inbound_read (w_st w) id then
+        match rq with
+        | IFindNode target => Some (false, seeds_of wc (w_rt w) target)
+        | IGetValue rk target =>
+            Some (match snd (V.C17.Model.get (w_store w) rk 0) with Some _ => true | None => false end,
+                  seeds_of wc (w_rt w) target)
+        | IGetProviders target => Some (false, seeds_of wc (w_rt w) target)
+        | _ => None
+        end
+      else None
+  | _ => None
   end.
 
 Definition cstep (wc : wcfg) (w : world) (u : uev) : world * list out * bool :=
   let '(e, t', s') := elab wc w u in
   let '(st', o, ok) := step (wc_g wc) (w_st w) e in
-  (mkW st' t' s', o, ok).
+  (mkW st' t' s' (fst (prov_side w u)) (snd (prov_side w u)), o, ok && uvalid w u).
 
 Fixpoint crun (wc : wcfg) (w : world) (us : list uev) : world * list out :=
   match us with
@@ -223,4 +320,4 @@ Fixpoint elabs (wc : wcfg) (w : world) (us : list uev) : list ev :=
   end.
 
 Definition w0 (wc : wcfg) (m : list (N * N)) (L : nat) : world :=
-  mkW (st0 m) (V.C14.Model.empty_table L) V.C17.Model.empty_store.
+  mkW (st0 m) (V.C14.Model.empty_table L) V.C17.Model.empty_store [] [].
